@@ -16,6 +16,7 @@ func init() {
 		Explanation: "Decided (structural necessary conditions, all paths of package memfs): L1 every access to Dir.nodes/Dir.index/File.data holds the owning mutex in the required mode (lockset analysis with computed wrapper summaries); L2 the stream handle is the only code that touches File.data outside a lock, it is constructed only by NewFileHandler which returns with the data lock held, and Close releases it; L3 every function that changes Dir.nodes also changes Dir.index under the same hold; L4 every insert into Dir.index is preceded, under one continuous hold of the W lock, by a miss of the same key, and WriteFile/Writer keep the directory's outer lock from the leaf lookup to the create/replace; L5 every lock acquired in the package is released on every path to every return; L6 the lock-class order graph is acyclic apart from the parent->child recursion of copyDir. " +
 			"Added in round 2: L1 extends to any further content-bearing field of Dir/File (slices, maps, atomic.Value, sync.Map: a cached listing or memo is only touched under the node's mutex); L4 also requires that Writer builds its stream handle (which takes the file's data lock) under the same hold of the directory's outer lock as the reset/create; L7 a buffer that receives a copy of File.data is sized from len(File.data) read under the same hold that copies (length before the lock + content under it = a value nobody wrote). " +
 			"Added in round 5: L8 a value stored into a field of a node under its lock is computed only from fields of that node read under the same continuous hold (read under RLock, unlock, publish under Lock installs a stale value over a newer state). " +
+			"Added in round 6: L9 ReadDir/ReadFile hand out fresh copies (same rule as C01.R5): a clipped view of Dir.nodes is rewritten in place by a later Remove. " +
 			"NOT decided: linearizability, visibility and atomicity of overlapping operations (e.g. Remove(d) racing WriteFile(d/x)), liveness under real schedules; those need a dynamic or model-checking technique.",
 		Assumptions: []string{"two SSA values denote the same object when they are the same register or the same field path from the same parameter (fields holding sub-objects are not reassigned between lock and use)"}})
 }
